@@ -63,7 +63,7 @@ func closeRaw() {
 }
 
 // runRD: put the keys into an empty mem engine, iterate (lo, hi, rtype) forward, list the visited keys
-func runRD(rtype uint8, lo, hi []byte, keys [][]byte) string {
+func runRD(rtype uint8, lo, hi []byte, keys [][]byte, reverse bool) string {
 	eng := rawEngine()
 	wb := eng.NewWriteBatch()
 	for _, k := range keys {
@@ -73,7 +73,7 @@ func runRD(rtype uint8, lo, hi []byte, keys [][]byte) string {
 		return "err " + err.Error()
 	}
 	wb.Clear()
-	opts := engine.IteratorOpts{Range: engine.Range{Min: lo, Max: hi, Type: rtype}}
+	opts := engine.IteratorOpts{Range: engine.Range{Min: lo, Max: hi, Type: rtype}, Reverse: reverse}
 	it, err := engine.NewDBRangeIteratorWithOpts(eng, opts)
 	if err != nil {
 		return "err"
@@ -487,7 +487,32 @@ func scenario(seed int64, policy string, idx int, emit func(e2eRec)) {
 				continue
 			}
 		}
+		expireIt := policy == "local" && r.Chance(0.12) && (c.Typ == "kv" || c.Typ == "hash" || c.Typ == "set" || c.Typ == "zset" || c.Typ == "list")
 		switch {
+		case expireIt:
+			// expiry-driven delete: give the key a TTL that is already over on the wall clock (the scenario's
+			// timestamps lie in 2023), then run one pass of the TTL checker of the local-deletion policy
+			// (rockredis.VerifLocalExpireOnce: scan the expire index, delete through the *ClearWithBatch paths)
+			rec.Op = "expire+ttl-checker"
+			var n int64
+			switch c.Typ {
+			case "kv":
+				n, opErr = e.db.Expire(e.tick(), raw, 1)
+			case "hash":
+				n, opErr = e.db.HExpire(e.tick(), raw, 1)
+			case "set":
+				n, opErr = e.db.SExpire(e.tick(), raw, 1)
+			case "zset":
+				n, opErr = e.db.ZExpire(e.tick(), raw, 1)
+			case "list":
+				n, opErr = e.db.LExpire(e.tick(), raw, 1)
+			}
+			if opErr == nil && n != 1 {
+				opErr = fmt.Errorf("expire replied %d", n)
+			}
+			if opErr == nil {
+				opErr = e.db.VerifLocalExpireOnce()
+			}
 		case wholeTable:
 			rec.Op = "DeleteTableRange"
 			targets = nil
